@@ -1349,14 +1349,14 @@ func c18_reactModelPre(newAgent *ast.FuncDecl, consts map[string]string, goName 
 		"config.MessageModifier": {"messageModifier", "optfn"}},
 		consts: consts, retType: "res (list msg) * gstate * bool", ret: c18_preHandleRet("list:msg", true)}
 	callModifier := func(e *c18_rEnv, args []ast.Expr) (c18_rval, error) {
-			if len(args) != 2 {
-				return c18_rval{}, fmt.Errorf("messageModifier called with %d arguments", len(args))
-			}
-			a, err := e.expr(args[1])
-			if err != nil || a.kind != "list:msg" {
-				return c18_rval{}, fmt.Errorf("messageModifier called on a %s: %v", a.kind, err)
-			}
-			return c18_mark(c18_rval{"(gl_call_fn messageModifier " + a.text + ")", "res:list:msg"}, c18_alias(a)), nil
+		if len(args) != 2 {
+			return c18_rval{}, fmt.Errorf("messageModifier called with %d arguments", len(args))
+		}
+		a, err := e.expr(args[1])
+		if err != nil || a.kind != "list:msg" {
+			return c18_rval{}, fmt.Errorf("messageModifier called on a %s: %v", a.kind, err)
+		}
+		return c18_mark(c18_rval{"(gl_call_fn messageModifier " + a.text + ")", "res:list:msg"}, c18_alias(a)), nil
 	}
 	env.calls = map[string]func(e *c18_rEnv, args []ast.Expr) (c18_rval, error){"messageModifier": callModifier, "config.MessageModifier": callModifier}
 	body, err := env.stmts(fl.Body.List, "")
@@ -1591,13 +1591,13 @@ func c18_reactDirectConvert(buildRD *ast.FuncDecl, consts map[string]string) (st
 var c18_addNodeComponent = map[string]string{"AddChatModelNode": "ChatModel", "AddToolsNode": "Tools", "AddLambdaNode": "Lambda"}
 
 type c18_graphWalker struct {
-	consts  map[string]string
-	file    *ast.File
-	roles   map[string]string
-	env     *c18_rEnv
-	depth   int
-	cur     *ast.FuncDecl // the function being walked
-	graph   string        // what the function being walked calls the graph
+	consts map[string]string
+	file   *ast.File
+	roles  map[string]string
+	env    *c18_rEnv
+	depth  int
+	cur    *ast.FuncDecl // the function being walked
+	graph  string        // what the function being walked calls the graph
 }
 
 func (g *c18_graphWalker) canon(id string) string {
